@@ -1,3 +1,4 @@
+\* measured: 763 distinct / 655,418 generated states (incl. same-row batch pairs), ~35 s with 6 workers
 SPECIFICATION Spec
 CONSTANTS
   Users = {"u1"}
